@@ -1141,7 +1141,7 @@ def create_sampling_mask_plan(fn: ast.FunctionDef) -> list[bool]:
     if call.args or "shape" not in kw or "seed" not in kw:
         raise Untranslatable("the mask function is not called with shape= and seed=")
 
-    def reaching(expr):
+    def reaching(expr, split=True):
         """the expressions that can be the value of `expr`: a multiply-assigned local stands for all its bindings"""
         e = _expand(expr, env)
         if isinstance(e, ast.Name):
@@ -1149,7 +1149,7 @@ def create_sampling_mask_plan(fn: ast.FunctionDef) -> list[bool]:
                     and isinstance(n.targets[0], ast.Name) and n.targets[0].id == e.id]
             if vals:
                 return {_norm_ifexp(_expand(v, env)) for v in vals}
-        if isinstance(e, ast.IfExp):
+        if isinstance(e, ast.IfExp) and split:
             return reaching(e.body) | reaching(e.orelse)
         return {_norm_ifexp(e)}
     shapes = reaching(kw["shape"])
@@ -1158,17 +1158,16 @@ def create_sampling_mask_plan(fn: ast.FunctionDef) -> list[bool]:
     full_branch = "self.shape + (2,)" in shapes
     shape_guards = {_norm_ifexp(n.test) for n in ast.walk(fn) if isinstance(n, (ast.If, ast.IfExp))}
     guards_ok = "not self.shape" in shape_guards and "any((_ is None for _ in self.shape))" in shape_guards and len(shapes) == 3
-    seed_ok = reaching(kw["seed"]) == {"tuple(map(ord, str(sample['filename']))) if self.use_seed else None"}
+    seed_ok = reaching(kw["seed"], split=False) == {"tuple(map(ord, str(sample['filename']))) if self.use_seed else None"}
     call_ok = norm(kw.get("return_acs", ast.Constant(False))) == "False"
     # what is stored: the call result, with the padded positions cleared when the sample has a padding
     stored = reaching(store.value)
-    raw = "self.mask_func(shape=shape, seed=seed, return_acs=False)"
     var = store.value.id if isinstance(store.value, ast.Name) else None
     pads = [n for n in ast.walk(fn) if isinstance(n, ast.If) and _norm_ifexp(n.test) == "'padding' in sample"]
     pad_ok = (len(pads) == 1 and not pads[0].orelse and len(pads[0].body) == 1 and isinstance(pads[0].body[0], ast.Assign)
               and var is not None and norm(pads[0].body[0].targets[0]) == var
               and norm(pads[0].body[0].value) == f"T.apply_padding({var}, sample['padding'])")
-    store_ok = (var is not None and norm(call) in {raw, norm(call)} and any(norm(call) == v for v in stored)
+    store_ok = (var is not None and _norm_ifexp(_expand(call, env)) in stored
                 and (not pads or pads[0].lineno < store.lineno) and call.lineno < store.lineno)
     return [default_shape, none_branch, full_branch and guards_ok, seed_ok, call_ok, pad_ok, store_ok]
 
